@@ -588,6 +588,73 @@ def run(ctx):
             if mres is not None:
                 ctx.cov["traces_validated_against_impl"] += len(cases)
 
+    # ---------------- edge replication (expand_right_edge / expand_bottom_edge) ----------------
+    if not replay or replay.get("stream") == "edge":
+        erng = rng.fork()
+        ecases, split = [], {"right:no-op(ic=oc)": 0, "right:ic=1": 0, "right:oc=rowlen": 0, "right:partial-rows": 0,
+                             "bottom:no-op": 0, "bottom:ir=1": 0, "bottom:or=total": 0, "bottom:ncols<rowlen": 0}
+        if replay:
+            ecases = [replay["case"]]
+        else:
+            for i in range(ctx.n(400, 6000)):
+                nr, rl = erng.range(1, 12), erng.range(1, 40)
+                M = erng.choice([255, 255, 4095])
+                smp = [erng.range(0, M) for _ in range(nr * rl)]
+                if i % 2 == 0:
+                    ic = erng.choice([1, rl, erng.range(1, rl)])
+                    oc = erng.choice([ic, rl, erng.range(ic, rl), (ic + 7) // 8 * 8 if (ic + 7) // 8 * 8 <= rl else rl])
+                    n = erng.choice([nr, erng.range(0, nr)])
+                    split["right:no-op(ic=oc)"] += ic == oc
+                    split["right:ic=1"] += ic == 1
+                    split["right:oc=rowlen"] += oc == rl
+                    split["right:partial-rows"] += n < nr
+                    ecases.append("redge %d %d %d %d %d | %s" % (nr, rl, n, ic, oc, " ".join(map(str, smp))))
+                else:
+                    ir = erng.choice([1, nr, erng.range(1, nr)])
+                    orr = erng.choice([ir, nr, erng.range(ir, nr)])
+                    nc = erng.choice([rl, erng.range(0, rl)])
+                    split["bottom:no-op"] += ir == orr
+                    split["bottom:ir=1"] += ir == 1
+                    split["bottom:or=total"] += orr == nr
+                    split["bottom:ncols<rowlen"] += nc < rl
+                    ecases.append("bedge %d %d %d %d %d | %s" % (nr, rl, nc, ir, orr, " ".join(map(str, smp))))
+            ctx.cov["edge_case_split"] = split
+        mres = None
+        if drv and ecases:
+            rc, out, err = sh2([drv], input=("\n".join(ecases) + "\n").encode(), timeout=600)
+            mres = out.decode().split("\n")
+            if rc != 0 or len(mres) < len(ecases):
+                ctx.broken_tie("model-driver", "extracted edge model failed: rc=%d %s" % (rc, err[-200:]))
+                mres = None
+        for fl in flavours:
+            for bits in (8, 12):
+                exe = ctx.cc("c07_edge_%d" % bits, ["c07_edge.c"], fl, libs=("jpeg",), extra="-DBITS_IN_JSAMPLE=12" if bits == 12 else "")
+                mine = [(i, l) for i, l in enumerate(ecases) if bits == 12 or max(int(t) for t in l.split("|")[1].split()) <= 255]
+                res = run_stream(ctx, exe, [l for _, l in mine], "c07 edge harness %d-bit %s" % (bits, fl), {"stream": "edge", "flavour": fl})
+                for (i, l), impl in zip(mine, res):
+                    if impl == "<no output>":
+                        continue
+                    hd = [int(t) for t in l.split("|")[0].split()[1:]]
+                    smp = [int(t) for t in l.split("|")[1].split()]
+                    nr, rl, a2, a3, a4 = hd
+                    rows = [smp[r * rl:(r + 1) * rl] for r in range(nr)]
+                    if l.startswith("redge"):
+                        exp = [[(row[a3 - 1] if (r < a2 and a3 <= c < a4) else row[c]) for c in range(rl)] for r, row in enumerate(rows)]
+                    else:
+                        exp = [[(rows[a3 - 1][c] if (a3 <= r < a4 and c < a2) else rows[r][c]) for c in range(rl)] for r in range(nr)]
+                    got = [int(t) for t in impl.split()[1:]]
+                    if got != [v for row in exp for v in row]:
+                        ctx.violation("edge replication does not copy the last real column/row (or touches a real sample): " + l[:80],
+                                      {"stream": "edge", "flavour": fl, "case": l, "impl": impl[:2000]}, signature="edge-" + l[:5])
+                    if mres is not None and mres[i] != impl:
+                        disagree += 1
+                        if disagree <= 3:
+                            ctx.broken_tie("correspondence:edge", "model and implementation differ (%s %d-bit): %s || model=%s || impl=%s" % (
+                                fl, bits, l[:200], mres[i][:200], impl[:200]))
+                    ctx.count("edge-%d-%s" % (bits, l[:5]), 1, (l[:5], hd[2], hd[3], hd[4], impl[-40:]))
+        if mres is not None:
+            ctx.cov["traces_validated_against_impl"] += len(ecases)
+
     # ---------------- API level ----------------
     if not replay or replay.get("stream") == "api":
         if replay:
